@@ -279,7 +279,21 @@ impl WsPeer {
 		B: http_body::Body<Data = Bytes> + Send + 'static,
 		B::Error: Into<jsonrpsee_core::BoxError>,
 	{
-		let (client_io, server_io) = tokio::io::duplex(1 << 22);
+		Self::connect_with_pipe(svc, stop, handle, headers, 1 << 22).await
+	}
+
+	/// as `connect`, over an in-process pipe of `pipe` bytes (a small pipe plus a peer that does not read = back-pressure
+	/// on the connection's writer)
+	pub async fn connect_with_pipe<S, B>(svc: S, stop: StopHandle, handle: ServerHandle, headers: &[(&str, &str)], pipe: usize) -> Result<WsPeer, String>
+	where
+		S: tower::Service<http::Request<hyper::body::Incoming>, Response = http::Response<B>> + Clone + Send + 'static,
+		S::Future: Send,
+		S::Response: Send,
+		S::Error: Into<jsonrpsee_core::BoxError>,
+		B: http_body::Body<Data = Bytes> + Send + 'static,
+		B::Error: Into<jsonrpsee_core::BoxError>,
+	{
+		let (client_io, server_io) = tokio::io::duplex(pipe);
 		let stopped = stop.clone().shutdown();
 		let conn = tokio::spawn(async move {
 			let _ = serve_with_graceful_shutdown(server_io, svc, stopped).await;
